@@ -492,6 +492,11 @@ class WorkflowRecovery:
                 ]
                 if not all(status in CONTINUABLE_STATUSES for status in core):
                     return False
+                # A task that ended REDIRECT asked for a jump that is still
+                # queued: the parent is about to be re-armed (or left), its
+                # core work is not done.
+                if any(t.status == WorkflowStatus.REDIRECT for t in parent.tasks):
+                    return False
 
         # No dependencies - can always start
         if not stage.requisite_stage_ref_ids:
